@@ -192,18 +192,18 @@ def run(ctx):
         for _ in range(3):
             a_ = rng.randint(10, n_ - 50)
             Xg[a_:a_ + rng.randint(8, 30), rng.sample(range(p_), rng.randint(1, p_))] += rng.choice([4.0, -5.0, 7.0])
-        dg = _MVCAPA(collective_saving=_GV16((mu_, var_)), min_segment_length=2, max_segment_length=60).fit(Xg)
+        dg = _MVCAPA(collective_saving=_GV16((mu_, var_)), point_saving=__import__('skchange.costs', fromlist=['L2Cost']).L2Cost(param=mu_), min_segment_length=2, max_segment_length=60).fit(Xg)
         yg = dg.predict(Xg)
         sa, sb = capa_penalty_factory("sparse")(n_, p_, 2, dg.collective_penalty_scale)
+        pa16, pb16 = capa_penalty_factory(dg.point_penalty)(n_, p_, 1, dg.point_penalty_scale)
         ctx.case({"gaussian_baseline_cols": it, "n": n_, "p": p_, "x0": float(Xg[0, 0])}, nontrivial=len(yg) > 0)
         ctx.count("default_scale", "MVCAPA-columns(Gaussian baseline)")
         for l_, r_, cc_ in zip(yg["ilocs"].array.left, yg["ilocs"].array.right, yg["icolumns"]):
             l_, r_ = int(l_), int(r_)
-            if r_ - l_ == 1:
-                continue
-            sav = np.asarray(_direct16.saving_direct("gvar", (mu_, var_), Xg, l_, r_), dtype=float)
+            sav = np.asarray(_direct16.saving_direct("l2", mu_, Xg, l_, r_) if r_ - l_ == 1 else _direct16.saving_direct("gvar", (mu_, var_), Xg, l_, r_), dtype=float)
             order = np.argsort(-sav, kind="stable")
-            pen = np.cumsum(sav[order] - np.asarray(sb, dtype=float)) - sa
+            al16, be16 = (pa16, pb16) if r_ - l_ == 1 else (sa, sb)
+            pen = np.cumsum(sav[order] - np.asarray(be16, dtype=float)) - al16
             k_ = int(np.argmax(pen))
             srt = np.sort(pen)[::-1]
             if len(srt) > 1 and srt[0] - srt[1] < 1e-7 * (abs(srt[0]) + 1):
